@@ -698,7 +698,8 @@ def assemble(unit_path, repo=REPO):
             expr = rsx.strip_comments(src.src[e0:e1])
             sig = kv['sig']
             name = re.search(r'fn\s+(\w+)', sig).group(1)
-            fnrec = FnRec(file, name, 'statement after ' + kv['after'][:40], name, None)
+            fnrec = FnRec(file, name, 'statement after ' + kv['after'][:40], name, kv.get('impl'))
+            fnrec.impl = kv.get('impl')
             if 'props' in kv:
                 fnrec.props |= set(kv['props'].split(','))
             contract = parse_contract(block, fnrec, unit_name)
